@@ -619,7 +619,7 @@ class Evaluator:
         """value of `fn(..) OVER ([PARTITION BY ..] [ORDER BY ..] [frame])` for row idx of `src` (the rows after WHERE).
         Ranking: row_number (order keys of the partition assumed tie-free), rank, dense_rank.  Aggregates count/sum/min/max over the
         frame: whole partition without ORDER BY, else RANGE UNBOUNDED PRECEDING..CURRENT ROW (peers included), or the written
-        ROWS/RANGE BETWEEN <unbounded preceding|current row> AND <current row|unbounded following> (ROWS: tie-free assumed)."""
+        ROWS/RANGE BETWEEN <unbounded preceding|current row> AND <current row|unbounded following> (ROWS: peers told apart by their position in the source)."""
         if not isinstance(wf.function, A.Function):
             raise Unsupported('window over %s' % type(wf.function).__name__)
         fn = wf.function.op.lower()
@@ -662,7 +662,10 @@ class Evaluator:
                 if unit == 'rows':
                     if not wf.order_by:
                         raise Unsupported('ROWS frame without ORDER BY')
-                    tie_free()
+                    # ROWS counts physical rows: peers are told apart by their position in the source (the order a scan of the
+                    # table delivers them in - validated against sqlite3 per member); so ROWS and RANGE differ on tied keys
+                    key_before = before
+                    before = lambda i, j: z3.Or(key_before(i, j), z3.And(self._peers(keys, i, j), z3.BoolVal(i < j)))   # noqa
             elif wf.order_by:
                 unit, lo, hi = 'range', 'unbounded', 'current'
             else:
